@@ -95,3 +95,16 @@ prop("C07",
      level_text="Whole-AST theorem that every raw syscall of the regenerated child is followed by its error check (or is a listed ignorable step) and that the exit helpers write the error then exit; kernel-evaluated fault injection at every step of a rich option set; per-run fault injection at every step of thousands of option sets in the driver; theorems for all inputs on the parent model (kill+wait4 before every failing return, both socket ends closed, ack only after a successful callback, returned error is the child's report); real failures induced at each reachable step",
      level_note="Trusted: Lean kernel; translator + Go-lite + abstract kernel; parent side is a hand model tied by real fault injection",
      technique="Lean 4: syntactic theorem on regenerated AST + decide +kernel fault injection + proofs on parent model; fault-injection differential")
+
+prop("C01",
+     trusted_base=["Kernel/BPF.lean: the classic-BPF machine restricted to seccomp (LD W ABS, JA/JEQ/JGT/JGE, RET) over seccomp_data; cross-checked against golang.org/x/net/bpf's VM on the real programs",
+                   "third-party generator github.com/elastic/go-seccomp-bpf and x/net/bpf.Assemble are NOT trusted: every filter the real Builder.Build() returns is validated by the verified validator (run compiled in the driver; the soundness theorem is kernel-checked)",
+                   "Spec/SeccompPolicy.lean: the policy semantics transcribed from the property statement; kernel action words from the compiled constants"],
+     assumptions=["the kernel's cBPF interpreter and seccomp_data layout are as modelled (offset 0 = nr, 4 = arch)",
+                  "native ABI = amd64 (arm/arm64 tables are not exercised here)",
+                  "C01_fail_closed / build_groups / export_lossless / cleanTrace are kernel evaluations of the regenerated glue code on samples (the validator covers the end-to-end effect for every generated policy)"],
+     not_covered="a generator-correctness theorem for all policies is not proved; instead each produced program is validated (translation validation with a proved validator)",
+     level_text="Kernel-checked soundness theorem of a translation validator: if validate(prog, policy) = true then for every seccomp_data (all 2^32 numbers x all arch tags x any argument words) the cBPF program returns exactly the policy's action (cell argument over the compared constants, representatives proved sufficient); every filter produced by the real Builder.Build for generated and shipped policies (incl. >255-name groups with long jumps, every default action) is validated on each run; glue (ToSeccompAction fail-closed, group order, sockFilter, cleanTrace) evaluated on regenerated code",
+     level_note="Trusted: Lean kernel for the validator theorem; the Lean compiler for running the validator on concrete programs; cBPF machine model; third-party generator untrusted (validated)",
+     technique="Lean 4 proved translation validator (cell/representative argument) applied to every real filter + decide +kernel on regenerated glue + VM cross-check",
+     timeout={"quick": 1500, "thorough": 7200})
